@@ -187,6 +187,26 @@ func Gen(r *sim.Rng, kind string) (*sim.WorldSpec, *Meta) {
 	// both sides, as convergen matches embedded members by name.
 	dOrder := append([]fdef(nil), dFields...)
 	sim.Shuffle(r, dOrder)
+	// H, HS, HV (the destinations of the explicit source paths through PP and of the
+	// variadic slot) stay neighbours: what a tree merges or hoists, it does for
+	// adjacent assignments
+	{
+		var rest, blk []fdef
+		for _, f := range dOrder {
+			if f.name == "HS" || f.name == "HV" {
+				blk = append(blk, f)
+			} else {
+				rest = append(rest, f)
+			}
+		}
+		dOrder = dOrder[:0]
+		for _, f := range rest {
+			dOrder = append(dOrder, f)
+			if f.name == "H" {
+				dOrder = append(dOrder, blk...)
+			}
+		}
+	}
 	for _, f := range dOrder {
 		meta.DOrder = append(meta.DOrder, f.name)
 	}
@@ -406,7 +426,7 @@ func Gen(r *sim.Rng, kind string) (*sim.WorldSpec, *Meta) {
 			notes = append(notes, ":map "+g+" H")
 			capable["Nest."+strings.TrimSuffix(strings.TrimPrefix(g, "PP."), "()")] = c
 		}
-		if slot(20) {
+		if slot(20) || (hasNote(notes, " H") && slot(60)) {
 			f, c := pickCap(mm.RetErr, "cNX", "pNX")
 			notes = append(notes, ":conv "+f+" PP.X HS")
 			capable[f] = c
@@ -850,4 +870,14 @@ func removeNote(notes []string, n string) []string {
 		}
 	}
 	return out
+}
+
+// hasNote: some notation ends in the given suffix (e.g. " H": the destination H)
+func hasNote(notes []string, suffix string) bool {
+	for _, n := range notes {
+		if strings.HasSuffix(n, suffix) {
+			return true
+		}
+	}
+	return false
 }
